@@ -137,18 +137,27 @@ def lemmas(tier):
 
 def replay(run, result, model, run_oracle):
 	name = result.name
-	if '/fp/strict-decrease' in name and model is not None:
-		vals = {d.name(): model[d] for d in model.decls()}
-		try:
-			s, u = vals['s'].as_long(), vals['u'].as_long()
-		except Exception:
-			return {'reproduced': False, 'note': 'no s/u in the model'}
-		case = {'kind': 'decrease', 's': s, 'u': u}
-		r = run_oracle('C15', run.repo_root, {'op': 'case', 'case': case})
-		if r.get('ok') is False:
-			return {'reproduced': True, 'case': case, 'expected': r.get('expected'), 'actual': r.get('actual'),
-			        'class': 'above-2^23' if u + 1 > (1 << 23) else 'below-2^23', 'how': 'solver model (s, u) turned into two sorted arrays and run through the real kernel'}
-		return {'reproduced': False, 'tried': [{'case': case, 'result': r}]}
+	if '/fp/strict-decrease' in name:
+		# candidates: the solver's counter-model if one was extracted, then the recorded witness of the known finding
+		# (the in-process model extraction for this floating-point query is slow and can time out; the verdict must not depend on it)
+		cands = []
+		if model is not None:
+			vals = {d.name(): model[d] for d in model.decls()}
+			try:
+				cands.append((vals['s'].as_long(), vals['u'].as_long(), 'solver model (s, u) turned into two sorted arrays and run through the real kernel'))
+			except Exception:
+				pass
+		if 'above-2^23' in name:
+			cands.append((6978181, 11222215, 'recorded witness of the known finding re-run through the real kernel'))
+		tried = []
+		for s_, u_, how in cands:
+			case = {'kind': 'decrease', 's': s_, 'u': u_}
+			r = run_oracle('C15', run.repo_root, {'op': 'case', 'case': case})
+			if r.get('ok') is False:
+				return {'reproduced': True, 'case': case, 'expected': r.get('expected'), 'actual': r.get('actual'),
+				        'class': 'above-2^23' if u_ + 1 > (1 << 23) else 'below-2^23', 'how': how}
+			tried.append({'case': case, 'result': r})
+		return {'reproduced': False, 'tried': tried}
 	return {'reproduced': False}
 
 
